@@ -1,5 +1,5 @@
 """Per-property configuration: streams, projection, oracle tags, extra checks."""
-import os, json, re, subprocess, time, hashlib, collections
+import os, json, re, subprocess, time, hashlib, collections, shutil
 import pipeline as P
 import streams as S
 
@@ -338,6 +338,105 @@ def glue_run():
     return {"lines": int(m.group(1)) if m else 0, "differences": len(diffs), "hits": hits, "sample": out.split("\n")[:0]}
 
 
+def _fault_free_histories(lines):
+    """histories inside the preconditions, decided by the ordinary build (quarantine on, so that a history
+    with a dangling handle runs to its end and prints its flags): disciplined, nothing reachable destroyed,
+    no escaped handle, no fault in the model -- not even in the observers after the last call"""
+    base = P.differential(lines)
+    elig = []
+    for l in lines:
+        r = base.get(l.split("|", 1)[0])
+        if not r or r["diff"] or r["halt"] is not None or r["impl"].get("crash"):
+            continue
+        ex = {}
+        for ln in r["impl"]["lines"]:
+            ex = P.parse_line(ln)["extra"] or ex
+        if ex.get("disc") != "1" or ex.get("d4", "0") != "0" or ex.get("esc", "0") != "0":
+            continue
+        if any(ln.rstrip().endswith("O fault") or " O fault" in ln for ln in r["model"]["lines"]):
+            continue
+        if any(" abort" in ln or "upanic" in ln for ln in r["impl"]["lines"]):
+            continue
+        elig.append(l)
+    return elig
+
+
+def miri_second_opinion(tier, seed):
+    """thorough tier only: the harness and the implementation interpreted by Miri (cargo +nightly miri,
+    Stacked Borrows off: the aliasing model is outside C02's statement; leaks ignored; quarantine off so
+    that releases are real): use after free, double free, reads of moved-out / uninitialised storage and
+    invalid pointers, with the interpreter's precision, on the fault-free part of the corpus. When Miri
+    cannot be run here (no sysroot, unsupported operation) the opinion is recorded as unavailable -- that
+    is not a violation."""
+    import concurrent.futures
+    hd = os.path.join(P.OUT, "work", "miri_harness")
+    shutil.rmtree(hd, ignore_errors=True)
+    os.makedirs(hd)
+    for f in ("Cargo.toml", "rust-toolchain"):
+        shutil.copy(os.path.join(P.HARNESS_DIR, f), os.path.join(hd, f))
+    shutil.copytree(os.path.join(P.HARNESS_DIR, "src"), os.path.join(hd, "src"))
+    for f in ("Cargo.lock",):
+        if os.path.exists(os.path.join(P.HARNESS_DIR, f)):
+            shutil.copy(os.path.join(P.HARNESS_DIR, f), os.path.join(hd, f))
+    env = P.env_offline()
+    env["RUSTFLAGS"] = "--cfg cactusref_verif"
+    env["MIRIFLAGS"] = "-Zmiri-disable-stacked-borrows -Zmiri-disable-isolation -Zmiri-permissive-provenance -Zmiri-ignore-leaks"
+    env["CARGO_TARGET_DIR"] = os.path.join(hd, "target")
+    cmd = ["cargo", "+nightly", "miri", "run", "--offline", "--", "run"]
+
+    def run(skip, data, timeout):
+        try:
+            q = subprocess.run(cmd + [str(skip), "0", "noquarantine"], cwd=hd, env=env, input=data.encode(),
+                               stdout=subprocess.PIPE, stderr=subprocess.PIPE, timeout=timeout)
+            return q.returncode, q.stdout.decode(errors="replace"), q.stderr.decode(errors="replace")
+        except subprocess.TimeoutExpired as e:
+            return "timeout", (e.stdout or b"").decode(errors="replace"), ""
+    probe = "miri_probe|A|new 0;clone r0 1;drop 0;drop 1\n"
+    rc, out, err = run(0, probe, 1500)
+    if rc != 0 or "E miri_probe" not in out:
+        return {"available": False, "why": (err or out)[-600:], "histories": 0, "hits": [], "n_hits": 0}
+    lines = [l for l in S.corpus_lines() if "|A|" in l]
+    lines += _lines_of("rand_cws", "quick", seed)[:150] + _lines_of("rand_cwa", "quick", seed)[:150] + \
+        _lines_of("rand_cwsp", "quick", seed)[:100]
+    elig = _fault_free_histories(lines)
+    skipped = len(lines) - len(elig)
+    nsh = 16
+    shards = [elig[i::nsh] for i in range(nsh)]
+
+    def work(shard):
+        found, done, skip = [], 0, 0
+        while skip < len(shard):
+            rc, out, err = run(0, "\n".join(shard[skip:]) + "\n", 2400)
+            ended = [ln[2:] for ln in out.split("\n") if ln.startswith("E ")]
+            started = [ln[2:] for ln in out.split("\n") if ln.startswith("H ")]
+            done += len(ended)
+            if rc == 0:
+                break
+            bad = started[-1] if started and (not ended or started[-1] != ended[-1]) else None
+            if bad is None:
+                break
+            line = next((l for l in shard if l.split("|", 1)[0] == bad), bad)
+            m = re.search(r"error: (Undefined Behavior: [^\n]*|unsupported operation: [^\n]*|[^\n]*)", err)
+            inlib = "cactusref::" in err
+            found.append((line, (m.group(1) if m else "exit %s" % rc)[:160], inlib, rc))
+            skip = [l.split("|", 1)[0] for l in shard].index(bad) + 1
+        return found, done
+    hits, ran, unsupported = [], 0, 0
+    with concurrent.futures.ThreadPoolExecutor(max_workers=nsh) as ex:
+        for found, done in ex.map(work, shards):
+            ran += done
+            for line, what, inlib, rc in found:
+                if what.startswith("unsupported operation") or rc == "timeout":
+                    unsupported += 1
+                    continue
+                hits.append({"type": "oracle", "hid": line.split("|", 1)[0], "line": line, "idx": 0,
+                             "oracle": "C02:miri:" + what.replace(" ", "_")[:120] + ("" if inlib else ":outside-the-library"),
+                             "disc": "1", "d4": "0", "shrinkable": False})
+    shutil.rmtree(os.path.join(hd, "target"), ignore_errors=True)
+    return {"available": True, "histories": ran, "outside_the_preconditions_skipped": skipped,
+            "unsupported_or_timed_out": unsupported, "hits": hits[:20], "n_hits": len(hits)}
+
+
 def asan_second_opinion(tier, seed):
     """thorough tier only: the implementation rebuilt with AddressSanitizer, quarantine off (real frees),
     on the corpus and a sample of the random streams; every history the model says is fault-free must
@@ -540,8 +639,10 @@ def _extra_checks(pid, cfg, tier, seed):
         if not r.get("built"):
             hits = [{"type": "oracle", "hid": "asan", "line": "cargo +nightly build (ASan)", "idx": 0,
                      "oracle": "C02:asan-build-failed", "disc": "1", "d4": "0", "shrinkable": False}]
-        return {"oracle_hits": hits, "evaluations": r["histories"], "distinct_nontrivial": 0,
-                "evidence": {"asan_second_opinion": {k: r.get(k) for k in ("built", "histories", "outside_the_preconditions_skipped", "implementation_crashes_or_reports", "n_hits")}}}
+        mi = _cached("miri-%s" % seed, lambda: miri_second_opinion(tier, seed))
+        return {"oracle_hits": hits + mi["hits"], "evaluations": r["histories"] + mi["histories"], "distinct_nontrivial": 0,
+                "evidence": {"asan_second_opinion": {k: r.get(k) for k in ("built", "histories", "outside_the_preconditions_skipped", "implementation_crashes_or_reports", "n_hits")},
+                             "miri_second_opinion": {k: mi.get(k) for k in ("available", "why", "histories", "outside_the_preconditions_skipped", "unsupported_or_timed_out", "n_hits")}}}
     if pid == "C12":
         r = _cached("rawadopt", rawadopt_run)
         return {"oracle_hits": r["hits"], "evaluations": r["lines"], "distinct_nontrivial": 0,
